@@ -41,7 +41,7 @@ func AdapterStore(rueidis.CacheStoreOption) rueidis.CacheStore {
 // mux is ClientOption.PipelineMultiplex (-1: one connection, k >= 0: 2^k connections).
 func SingleClient(s *fakeredis.Server, mux int, adapter, bcast bool, mod func(o *rueidis.ClientOption)) (rueidis.Client, error) {
 	o := rueidis.ClientOption{InitAddress: []string{"127.0.0.1:6379"}, DialCtxFn: s.Dial, ForceSingleClient: true,
-		PipelineMultiplex: mux, DisableRetry: true}
+		PipelineMultiplex: mux, DisableRetry: true, RingScaleEachConn: 6, ReadBufferEachConn: 8192, WriteBufferEachConn: 8192}
 	if adapter {
 		o.NewCacheStoreFn = AdapterStore
 	}
